@@ -21,7 +21,7 @@ theorem pyEq_str (s r r' : Str) : pyEq (.str s r) (.str s r') = true := by
   simp [pyEq, leafEq, numOf]
 theorem pyEq_bytes (c c' : ClsRef) (r : Str) : pyEq (.bytes c r) (.bytes c' r) = true := by
   simp [pyEq, leafEq, numOf]
-theorem pyEq_qname (t r r' : Str) : pyEq (.qname t r) (.qname t r') = true := by
+theorem pyEq_qname (t : Str) : pyEq (.qname t) (.qname t) = true := by
   simp [pyEq, leafEq, numOf]
 theorem pyEq_enum (c : ClsRef) (m : Str) : pyEq (.enum c m) (.enum c m) = true := by
   simp [pyEq, leafEq, numOf]
@@ -31,41 +31,6 @@ theorem pyEq_opaque (c : ClsRef) (cal : List Str) (ar : Str) (n : Option NumV) (
   | none => simp [pyEq, leafEq, numOf]
   | some x => simp [pyEq, leafEq, numOf, NumV.eq_self h]
 
-
-/-! ### `==` preserves hashability (right to left) -/
-
-mutual
-theorem hashable_of_pyEq : (a b : Val) → pyEq a b = true → hashable b = true → hashable a = true
-  | .list xs, b, h, hb => by
-      cases b <;> simp_all [pyEq, hashable]
-  | .dict kvs, b, h, hb => by
-      cases b <;> simp_all [pyEq, hashable]
-  | .model c xs, b, h, hb => by
-      cases b <;> simp_all [pyEq, hashable]
-  | .tuple xs, b, h, hb => by
-      cases b with
-      | tuple ys =>
-        simp only [pyEq] at h
-        simp only [hashable] at hb ⊢
-        exact hashableL_of_pyEqL xs ys h hb
-      | _ => simp_all [pyEq]
-  | .none, _, _, _ => by simp [hashable]
-  | .bool _, _, _, _ => by simp [hashable]
-  | .int _, _, _, _ => by simp [hashable]
-  | .float _ _, _, _, _ => by simp [hashable]
-  | .str _ _, _, _, _ => by simp [hashable]
-  | .bytes _ _, _, _, _ => by simp [hashable]
-  | .qname _ _, _, _, _ => by simp [hashable]
-  | .opaque _ _ _ _, _, _, _ => by simp [hashable]
-  | .enum _ _, _, _, _ => by simp [hashable]
-theorem hashableL_of_pyEqL : (xs ys : List Val) → pyEqL xs ys = true → hashableL ys = true → hashableL xs = true
-  | [], _, _, _ => by simp [hashableL]
-  | x :: xs, [], h, _ => by simp [pyEqL] at h
-  | x :: xs, y :: ys, h, hb => by
-      simp only [pyEqL, Bool.and_eq_true] at h
-      simp only [hashableL, Bool.and_eq_true] at hb ⊢
-      exact ⟨hashable_of_pyEq x y h.1 hb.1, hashableL_of_pyEqL xs ys h.2 hb.2⟩
-end
 
 /-! ### keyword arguments and the dataclass constructor -/
 
@@ -187,32 +152,32 @@ theorem EnvGood.append_right {W : World} {env : Env} {a b : List (List Str × Cl
   fun pc hp => h pc (List.mem_append.mpr (Or.inr hp))
 
 /-- round trip of one value -/
-def RT (cfg : Cfg) (W : World) (env : Env) (v : Val) : Prop :=
-  wf W v = true → valOK cfg W v = true → EnvGood W env ((render W v).refs cfg) →
-    ∃ v', eval cfg W env (render W v) = .ok v' ∧ pyEq v' v = true
+def RT (W : World) (env : Env) (v : Val) : Prop :=
+  wf W v = true → valOK W v = true → EnvGood W env ((render W v).refs) →
+    ∃ v', eval W env (render W v) = .ok v' ∧ pyEq v' v = true ∧ (hashable v = true → hashable v' = true)
 
-theorem evalKw_select (cfg : Cfg) (W : World) (env : Env) : ∀ (fs : List FieldSpec) (attrs : List Val),
-    (∀ a ∈ attrs, RT cfg W env a) → wfL W attrs = true → valOKL cfg W attrs = true →
-    EnvGood W env (refsKw cfg (selectKw fs attrs (renderL W attrs))) →
-    ∃ kv, evalKw cfg W env (selectKw fs attrs (renderL W attrs)) = .ok kv ∧ KwRel fs attrs kv
+theorem evalKw_select (W : World) (env : Env) : ∀ (fs : List FieldSpec) (attrs : List Val),
+    (∀ a ∈ attrs, RT W env a) → wfL W attrs = true → valOKL W attrs = true →
+    EnvGood W env (refsKw (selectKw fs attrs (renderL W attrs))) →
+    ∃ kv, evalKw W env (selectKw fs attrs (renderL W attrs)) = .ok kv ∧ KwRel fs attrs kv
   | [], attrs, _, _, _, _ => by
       cases attrs <;> exact ⟨[], by simp [selectKw, evalKw], by simp [KwRel]⟩
   | f :: fs, [], _, _, _, _ => ⟨[], by simp [selectKw, evalKw], by simp [KwRel]⟩
   | f :: fs, a :: as, hrt, hwf, hok, henv => by
       have hwf' : wf W a = true ∧ wfL W as = true := by simpa [wfL] using hwf
-      have hok' : valOK cfg W a = true ∧ valOKL cfg W as = true := by simpa [valOKL] using hok
-      have hrt' : ∀ x ∈ as, RT cfg W env x := fun x hx => hrt x (by simp [hx])
+      have hok' : valOK W a = true ∧ valOKL W as = true := by simpa [valOKL] using hok
+      have hrt' : ∀ x ∈ as, RT W env x := fun x hx => hrt x (by simp [hx])
       by_cases hsel : (f.init && !(elide f.dflt a)) = true
       · have hs : selectKw (f :: fs) (a :: as) (renderL W (a :: as))
             = (f.name, render W a) :: selectKw fs as (renderL W as) := by
           simp [selectKw, renderL, hsel]
         rw [hs] at henv ⊢
-        have henv1 : EnvGood W env ((render W a).refs cfg) := by
+        have henv1 : EnvGood W env ((render W a).refs) := by
           simp only [refsKw] at henv; exact henv.append_left
-        have henv2 : EnvGood W env (refsKw cfg (selectKw fs as (renderL W as))) := by
+        have henv2 : EnvGood W env (refsKw (selectKw fs as (renderL W as))) := by
           simp only [refsKw] at henv; exact henv.append_right
-        obtain ⟨a', he, hp⟩ := hrt a (by simp) hwf'.1 hok'.1 henv1
-        obtain ⟨kv', hk, hr⟩ := evalKw_select cfg W env fs as hrt' hwf'.2 hok'.2 henv2
+        obtain ⟨a', he, hp, _⟩ := hrt a (by simp) hwf'.1 hok'.1 henv1
+        obtain ⟨kv', hk, hr⟩ := evalKw_select W env fs as hrt' hwf'.2 hok'.2 henv2
         refine ⟨(f.name, a') :: kv', by simp [evalKw, he, hk], ?_⟩
         unfold KwRel
         rw [if_pos hsel]
@@ -221,7 +186,7 @@ theorem evalKw_select (cfg : Cfg) (W : World) (env : Env) : ∀ (fs : List Field
             = selectKw fs as (renderL W as) := by
           simp [selectKw, renderL, hsel]
         rw [hs] at henv ⊢
-        obtain ⟨kv', hk, hr⟩ := evalKw_select cfg W env fs as hrt' hwf'.2 hok'.2 henv
+        obtain ⟨kv', hk, hr⟩ := evalKw_select W env fs as hrt' hwf'.2 hok'.2 henv
         refine ⟨kv', hk, ?_⟩
         unfold KwRel
         rw [if_neg hsel]
@@ -239,8 +204,8 @@ theorem fieldsOf_of_isModelWith {W : World} {c : ClsRef} {n : Nat} (h : isModelW
   · simp at h
 
 /-- the `repr_model` case: constructor call with the selected keywords -/
-theorem rt_model (cfg : Cfg) (W : World) (env : Env) (c : ClsRef) (attrs : List Val)
-    (hrt : ∀ a ∈ attrs, RT cfg W env a) : RT cfg W env (.model c attrs) := by
+theorem rt_model (W : World) (env : Env) (c : ClsRef) (attrs : List Val)
+    (hrt : ∀ a ∈ attrs, RT W env a) : RT W env (.model c attrs) := by
   intro hwf hok henv
   simp only [wf, Bool.and_eq_true] at hwf
   obtain ⟨⟨⟨hmod, _⟩, _⟩, hwfL⟩ := hwf
@@ -249,119 +214,166 @@ theorem rt_model (cfg : Cfg) (W : World) (env : Env) (c : ClsRef) (attrs : List 
   obtain ⟨r, hfind, hlen, hnd⟩ := fieldsOf_of_isModelWith hmod
   simp only [render, PyExpr.refs] at henv ⊢
   have hres : resolve W env c.path = .ok c := henv (c.path, c) (by simp)
-  have henv' : EnvGood W env (refsKw cfg (selectKw (W.fieldsOf c) attrs (renderL W attrs))) :=
+  have henv' : EnvGood W env (refsKw (selectKw (W.fieldsOf c) attrs (renderL W attrs))) :=
     fun pc hp => henv pc (by simp [hp])
-  obtain ⟨kv, hkv, hrel⟩ := evalKw_select cfg W env (W.fieldsOf c) attrs hrt hwfL hokL henv'
+  obtain ⟨kv, hkv, hrel⟩ := evalKw_select W env (W.fieldsOf c) attrs hrt hwfL hokL henv'
   obtain ⟨attrs', hcon, heq⟩ := construct_rel (W.fieldsOf c) attrs kv kv hlen hnd hinit hrel (fun _ _ => rfl)
-  refine ⟨.model c attrs', ?_, ?_⟩
+  refine ⟨.model c attrs', ?_, ?_, ?_⟩
   · simp [eval, hres, hkv, hfind, kwNamesOK_of_rel hrel, hcon]
   · simp [pyEq, heq]
+  · simp [hashable]
 
 
-theorem decodeDq_plain : ∀ (t : Str), plainDq t = true → decodeDq false t = some t
-  | [], _ => rfl
-  | c :: r, h => by
-      have h' : (c ≠ '\\' ∧ rawBad c = false) ∧ plainDq r = true := by
-        simpa [plainDq, List.all_cons] using h
-      simp [decodeDq, h'.1.1, h'.1.2, decodeDq_plain r h'.2]
+/-! ### the parser reads back what `json.dumps` wrote -/
 
-def RTL (cfg : Cfg) (W : World) (env : Env) (xs : List Val) : Prop :=
-  wfL W xs = true → valOKL cfg W xs = true → EnvGood W env (refsL cfg (renderL W xs)) →
-    ∃ vs, evalL cfg W env (renderL W xs) = .ok vs ∧ pyEqL vs xs = true
+theorem hex_low : ∀ n : Fin 32,
+    hexVal (hexDigit (n.val / 16)) = some (n.val / 16) ∧ hexVal (hexDigit (n.val % 16)) = some (n.val % 16) ∧
+    isSurrogate n.val = false := by decide
 
-def RTKV (cfg : Cfg) (W : World) (env : Env) (kvs : List (Val × Val)) : Prop :=
-  wfKV W kvs = true → valOKKV cfg W kvs = true → EnvGood W env (refsKV cfg (renderKV W kvs)) →
-    ∃ ps, evalKV cfg W env (renderKV W kvs) = .ok ps ∧ pyEqKV ps kvs = true
+/-- one character: the escape `json.dumps` writes for `c`, followed by anything,
+decodes to `c` followed by the decoding of the rest -/
+theorem decodeDq_jsonEscChar (c : Char) (r : Str) :
+    decodeDq .normal (jsonEscChar c ++ r) = (decodeDq .normal r).map (c :: ·) := by
+  unfold jsonEscChar
+  by_cases h1 : c = '"'
+  · subst h1; simp [decodeDq, hardEsc, simpleEsc, rawBad]
+  by_cases h2 : c = '\\'
+  · subst h2; simp [decodeDq, hardEsc, simpleEsc, rawBad]
+  by_cases h3 : c = '\n'
+  · subst h3; simp [decodeDq, hardEsc, simpleEsc, rawBad]
+  by_cases h4 : c = '\r'
+  · subst h4; simp [decodeDq, hardEsc, simpleEsc, rawBad]
+  by_cases h5 : c = '\t'
+  · subst h5; simp [decodeDq, hardEsc, simpleEsc, rawBad]
+  by_cases h6 : c.toNat = 8
+  · have : c = Char.ofNat 8 := by rw [← h6, Char.ofNat_toNat]
+    subst this; simp [decodeDq, hardEsc, simpleEsc, rawBad]
+  by_cases h7 : c.toNat = 12
+  · have : c = Char.ofNat 12 := by rw [← h7, Char.ofNat_toNat]
+    subst this; simp [decodeDq, hardEsc, simpleEsc, rawBad]
+  by_cases h8 : c.toNat < 32
+  · obtain ⟨hx1, hx2, hs⟩ := hex_low ⟨c.toNat, h8⟩
+    simp only at hx1 hx2 hs
+    have h0 : hexVal '0' = some 0 := by decide
+    have hv : (0 * 16 + 0) * 16 + c.toNat / 16 = c.toNat / 16 := by omega
+    have hv2 : c.toNat / 16 * 16 + c.toNat % 16 = c.toNat := by omega
+    simp [h1, h2, h3, h4, h5, h6, h7, h8, decodeDq, hx1, hx2, h0, hv2, hs, Char.ofNat_toNat]
+  · have hraw : rawBad c = false := by
+      have : c.toNat ≠ 0 := by omega
+      simp [rawBad, h1, h3, h4, this]
+    simp [h1, h2, h3, h4, h5, h6, h7, h8, decodeDq, hraw]
+
+theorem decodeDq_jsonBody : ∀ (t : Str), decodeDq .normal (jsonBody t) = some t
+  | [] => rfl
+  | c :: r => by
+      rw [jsonBody, decodeDq_jsonEscChar, decodeDq_jsonBody r]
+      rfl
+
+def RTL (W : World) (env : Env) (xs : List Val) : Prop :=
+  wfL W xs = true → valOKL W xs = true → EnvGood W env (refsL (renderL W xs)) →
+    ∃ vs, evalL W env (renderL W xs) = .ok vs ∧ pyEqL vs xs = true
+      ∧ (hashableL xs = true → hashableL vs = true)
+
+def RTKV (W : World) (env : Env) (kvs : List (Val × Val)) : Prop :=
+  wfKV W kvs = true → valOKKV W kvs = true → EnvGood W env (refsKV (renderKV W kvs)) →
+    ∃ ps, evalKV W env (renderKV W kvs) = .ok ps ∧ pyEqKV ps kvs = true
       ∧ ps.all (fun p => hashable p.1) = true
 
+theorem set_builtin : Tables.builtinNames.contains cs!"set" = true ∧
+    Tables.builtinNames.contains cs!"frozenset" = true := by decide
+
 mutual
-theorem rt (cfg : Cfg) (W : World) (env : Env) : (v : Val) → RT cfg W env v
-  | .none => fun _ _ _ => ⟨.none, by simp [render, eval], pyEq_none⟩
-  | .bool b => fun _ _ _ => ⟨.bool b, by simp [render, eval], pyEq_bool b⟩
-  | .int i => fun _ _ _ => ⟨.int i, by simp [render, eval], pyEq_int i⟩
-  | .str s r => fun _ _ _ => ⟨.str s r, by simp [render, eval], pyEq_str s r r⟩
-  | .bytes c r => fun _ _ _ => ⟨.bytes bytesT r, by simp [render, eval], pyEq_bytes _ _ r⟩
+theorem rt (W : World) (env : Env) : (v : Val) → RT W env v
+  | .none => fun _ _ _ => ⟨.none, by simp [render, eval], pyEq_none, by simp [hashable]⟩
+  | .bool b => fun _ _ _ => ⟨.bool b, by simp [render, eval], pyEq_bool b, by simp [hashable]⟩
+  | .int i => fun _ _ _ => ⟨.int i, by simp [render, eval], pyEq_int i, by simp [hashable]⟩
+  | .str s r => fun _ _ _ => ⟨.str s r, by simp [render, eval], pyEq_str s r r, by simp [hashable]⟩
+  | .bytes c r => fun _ _ _ => ⟨.bytes bytesT r, by simp [render, eval], pyEq_bytes _ _ r, by simp [hashable]⟩
   | .float n r => fun _ hok henv => by
       have hn : notNan (some n) = true := by simpa [valOK] using hok
-      refine ⟨.float n r, ?_, pyEq_float r r hn⟩
+      refine ⟨.float n r, ?_, pyEq_float r r hn, by simp [hashable]⟩
       cases hf : n.isFin
       · have hres : resolve W env [floatCallee] = .ok floatT :=
           henv ([floatCallee], floatT) (by simp [render, hf, PyExpr.refs])
         simp [render, hf, eval, hres]
       · simp [render, hf, eval]
-  | .qname t r => fun _ hok henv => by
+  | .qname t => fun _ _ henv => by
       have hres : resolve W env [qnameCallee] = .ok qnameT :=
         henv ([qnameCallee], qnameT) (by simp [render, PyExpr.refs])
-      cases hq : cfg.qnameFix
-      · have hp : plainDq t = true := by simpa [valOK, hq] using hok
-        exact ⟨.qname t r, by simp [render, eval, hres, hq, decodeDq_plain t hp], pyEq_qname t r r⟩
-      · exact ⟨.qname t r, by simp [render, eval, hres, hq], pyEq_qname t r r⟩
+      exact ⟨.qname t, by simp [render, eval, hres, decodeDq_jsonBody t], pyEq_qname t, by simp [hashable]⟩
   | .opaque c callee args n => fun _ hok henv => by
       have hp : notNan n = true ∧ callee = c.path := by simpa [valOK] using hok
       have hres : resolve W env callee = .ok c :=
         henv (callee, c) (by simp [render, PyExpr.refs])
-      exact ⟨.opaque c callee args n, by simp [render, eval, hres], pyEq_opaque _ _ _ _ hp.1⟩
+      exact ⟨.opaque c callee args n, by simp [render, eval, hres], pyEq_opaque _ _ _ _ hp.1, by simp [hashable]⟩
   | .enum c m => fun hwf _ henv => by
-      have hres : resolve W env (enumNames cfg c) = .ok c :=
-        henv (enumNames cfg c, c) (by simp [render, PyExpr.refs])
+      have hres : resolve W env c.path = .ok c :=
+        henv (c.path, c) (by simp [render, PyExpr.refs])
       have hw : isEnumWith W c m = true := by
         simp only [wf, Bool.and_eq_true] at hwf; exact hwf.1.1
       unfold isEnumWith at hw
       split at hw
       · rename_i r ms hfind
         have hm : m ∈ ms := by simpa using hw
-        exact ⟨.enum c m, by simp [render, eval, hres, hfind, hm], pyEq_enum c m⟩
+        exact ⟨.enum c m, by simp [render, eval, hres, hfind, hm], pyEq_enum c m, by simp [hashable]⟩
       · simp at hw
   | .list xs => fun hwf hok henv => by
-      obtain ⟨vs, he, hp⟩ := rtL cfg W env xs (by simpa [wf] using hwf) (by simpa [valOK] using hok)
-        (by simpa [render, PyExpr.refs] using henv)
-      exact ⟨.list vs, by simp [render, eval, he], by simp [pyEq, hp]⟩
+      obtain ⟨vs, he, hp, _⟩ := rtL W env xs (by simpa [wf] using hwf) (by simpa [valOK] using hok)
+        (by simpa [render, PyExpr.refs, emptyRefs] using henv)
+      exact ⟨.list vs, by simp [render, eval, he], by simp [pyEq, hp], by simp [hashable]⟩
   | .tuple xs => fun hwf hok henv => by
-      have hok' : (cfg.tupleFix = true ∨ xs = []) ∧ valOKL cfg W xs = true := by simpa [valOK] using hok
-      obtain ⟨vs, he, hp⟩ := rtL cfg W env xs (by simpa [wf] using hwf) hok'.2
-        (by simpa [render, PyExpr.refs] using henv)
-      refine ⟨.tuple vs, ?_, by simp [pyEq, hp]⟩
-      rcases hok'.1 with ht | hx
-      · simp [render, eval, he, ht]
-      · subst hx
-        simp only [renderL, evalL] at he
-        cases he
-        simp [render, renderL, eval, evalL]
+      obtain ⟨vs, he, hp, hh⟩ := rtL W env xs (by simpa [wf] using hwf) (by simpa [valOK] using hok)
+        (by simpa [render, PyExpr.refs, emptyRefs] using henv)
+      exact ⟨.tuple vs, by simp [render, eval, he], by simp [pyEq, hp], by simpa [hashable] using hh⟩
+  | .set frozen xs => fun _ hok henv => by
+      have hx : xs = [] := by simpa [valOK] using hok
+      subst hx
+      cases frozen
+      · have hres : resolve W env [cs!"set"] = .ok (bref cs!"set") :=
+          henv ([cs!"set"], setT) (by simp [render, renderL, PyExpr.refs, emptyRefs])
+        exact ⟨.set false [], by simp [render, renderL, eval, evalL, evalEmptySet, hres],
+          by simp [pyEq, pyEqL], by simp [hashable]⟩
+      · have hres : resolve W env [cs!"frozenset"] = .ok (bref cs!"frozenset") :=
+          henv ([cs!"frozenset"], frozensetT) (by simp [render, renderL, PyExpr.refs, emptyRefs])
+        exact ⟨.set true [], by simp [render, renderL, eval, evalL, evalEmptySet, hres],
+          by simp [pyEq, pyEqL], by simp [hashable, hashableL]⟩
   | .dict kvs => fun hwf hok henv => by
-      obtain ⟨ps, he, hp, hh⟩ := rtKV cfg W env kvs (by simpa [wf] using hwf) (by simpa [valOK] using hok)
+      obtain ⟨ps, he, hp, hh⟩ := rtKV W env kvs (by simpa [wf] using hwf) (by simpa [valOK] using hok)
         (by simpa [render, PyExpr.refs] using henv)
-      exact ⟨.dict ps, by simp [render, eval, he, hh], by simp [pyEq, hp]⟩
-  | .model c attrs => rt_model cfg W env c attrs (rtA cfg W env attrs)
-theorem rtA (cfg : Cfg) (W : World) (env : Env) : (xs : List Val) → ∀ a ∈ xs, RT cfg W env a
+      exact ⟨.dict ps, by simp [render, eval, he, hh], by simp [pyEq, hp], by simp [hashable]⟩
+  | .model c attrs => rt_model W env c attrs (rtA W env attrs)
+theorem rtA (W : World) (env : Env) : (xs : List Val) → ∀ a ∈ xs, RT W env a
   | [], _, h => by cases h
   | x :: xs, a, h => by
       cases h with
-      | head => exact rt cfg W env x
-      | tail _ h' => exact rtA cfg W env xs a h'
-theorem rtL (cfg : Cfg) (W : World) (env : Env) : (xs : List Val) → RTL cfg W env xs
-  | [] => fun _ _ _ => ⟨[], by simp [renderL, evalL], by simp [pyEqL]⟩
+      | head => exact rt W env x
+      | tail _ h' => exact rtA W env xs a h'
+theorem rtL (W : World) (env : Env) : (xs : List Val) → RTL W env xs
+  | [] => fun _ _ _ => ⟨[], by simp [renderL, evalL], by simp [pyEqL], by simp [hashableL]⟩
   | x :: xs => fun hwf hok henv => by
       have hwf' : wf W x = true ∧ wfL W xs = true := by simpa [wfL] using hwf
-      have hok' : valOK cfg W x = true ∧ valOKL cfg W xs = true := by simpa [valOKL] using hok
+      have hok' : valOK W x = true ∧ valOKL W xs = true := by simpa [valOKL] using hok
       simp only [renderL, refsL] at henv
-      obtain ⟨v', he, hp⟩ := rt cfg W env x hwf'.1 hok'.1 henv.append_left
-      obtain ⟨vs, hes, hps⟩ := rtL cfg W env xs hwf'.2 hok'.2 henv.append_right
-      exact ⟨v' :: vs, by simp [renderL, evalL, he, hes], by simp [pyEqL, hp, hps]⟩
-theorem rtKV (cfg : Cfg) (W : World) (env : Env) : (kvs : List (Val × Val)) → RTKV cfg W env kvs
+      obtain ⟨v', he, hp, hh⟩ := rt W env x hwf'.1 hok'.1 henv.append_left
+      obtain ⟨vs, hes, hps, hhs⟩ := rtL W env xs hwf'.2 hok'.2 henv.append_right
+      refine ⟨v' :: vs, by simp [renderL, evalL, he, hes], by simp [pyEqL, hp, hps], ?_⟩
+      intro hx
+      have hx' : hashable x = true ∧ hashableL xs = true := by simpa [hashableL] using hx
+      simp [hashableL, hh hx'.1, hhs hx'.2]
+theorem rtKV (W : World) (env : Env) : (kvs : List (Val × Val)) → RTKV W env kvs
   | [] => fun _ _ _ => ⟨[], by simp [renderKV, evalKV], by simp [pyEqKV], by simp⟩
   | (k, v) :: r => fun hwf hok henv => by
       have hwf' : (wf W k = true ∧ wf W v = true) ∧ wfKV W r = true := by simpa [wfKV] using hwf
-      have hok' : ((hashable k = true ∧ valOK cfg W k = true) ∧ valOK cfg W v = true) ∧ valOKKV cfg W r = true := by
+      have hok' : ((hashable k = true ∧ valOK W k = true) ∧ valOK W v = true) ∧ valOKKV W r = true := by
         simpa [valOKKV] using hok
       simp only [renderKV, refsKV] at henv
-      obtain ⟨k', hek, hpk⟩ := rt cfg W env k hwf'.1.1 hok'.1.1.2 henv.append_left.append_left
-      obtain ⟨v', hev, hpv⟩ := rt cfg W env v hwf'.1.2 hok'.1.2 henv.append_left.append_right
-      obtain ⟨ps, hes, hps, hhs⟩ := rtKV cfg W env r hwf'.2 hok'.2 henv.append_right
-      have hk : hashable k' = true := hashable_of_pyEq k' k hpk hok'.1.1.1
+      obtain ⟨k', hek, hpk, hhk⟩ := rt W env k hwf'.1.1 hok'.1.1.2 henv.append_left.append_left
+      obtain ⟨v', hev, hpv, _⟩ := rt W env v hwf'.1.2 hok'.1.2 henv.append_left.append_right
+      obtain ⟨ps, hes, hps, hhs⟩ := rtKV W env r hwf'.2 hok'.2 henv.append_right
+      have hk : hashable k' = true := hhk hok'.1.1.1
       exact ⟨(k', v') :: ps, by simp [renderKV, evalKV, hek, hev, hes], by simp [pyEqKV, hpk, hpv, hps],
         by simp [hk, hhs]⟩
 end
-
 
 /-! ### `build_imports` binds every referenced name to the class meant -/
 
@@ -440,7 +452,8 @@ theorem walk_ok {W : World} {m : Str} : ∀ {rest cur : List Str} {r : ClsRef},
 
 /-- what a reference must satisfy for the import lines to serve it -/
 def RefGood (W : World) (pc : List Str × ClsRef) : Prop :=
-  pc.1 = pc.2.path ∧ reachable W pc.2 = true ∧ (pc.2.module ≠ builtinsMod ∨ pc.2 = floatT)
+  pc.1 = pc.2.path ∧ reachable W pc.2 = true ∧
+    (pc.2.module ≠ builtinsMod ∨ ∃ h, pc.2 = bref h ∧ Tables.builtinNames.contains h = true)
 
 theorem floatCallee_eq : floatCallee = cs!"float" := by decide
 theorem qnameCallee_eq : qnameCallee = Tables.qnameName := by decide
@@ -492,37 +505,44 @@ theorem resolve_of_good {W : World} {ts : List ClsRef} {pc : List Str × ClsRef}
         have := walk_ok hw
         simp only [List.singleton_append] at this
         rw [this, ← hpath]
-    · -- the builtin `float`
-      subst hmod
-      have hh : h = cs!"float" ∧ rest = [] := by
-        have : floatT.path = [cs!"float"] := rfl
+    · -- a builtin (`float`, `set`, `frozenset`): nothing imported may shadow it
+      obtain ⟨b, hb, hbn⟩ := hmod
+      subst hb
+      have hh : h = b ∧ rest = [] := by
+        have : (bref b).path = [b] := rfl
         rw [this] at hpath
         simp at hpath
         exact ⟨hpath.1.symm, hpath.2⟩
       obtain ⟨rfl, rfl⟩ := hh
-      have hnone : Env.lookup (imports ts) cs!"float" = none := by
+      have hnone : Env.lookup (imports ts) h = none := by
         apply Env.lookup_none_of
         intro q hq he
-        have hq' : (q.1, cs!"float") ∈ imports ts := by rw [← he]; exact hq
+        have hq' : (q.1, h) ∈ imports ts := by rw [← he]; exact hq
         exact (hfrom q.1 hq').2 rfl
-      simp only [hnone, float_builtin]
+      simp only [hnone, hbn]
       rfl
 
 
 mutual
 /-- every class a reference means was collected into `types` -/
-theorem refs_sub_types (cfg : Cfg) : (e : PyExpr) → ∀ pc ∈ e.refs cfg, pc.2 ∈ e.types
+theorem refs_sub_types : (e : PyExpr) → ∀ pc ∈ e.refs, pc.2 ∈ e.types
   | .lit _ _ _, pc, h => by simp [PyExpr.refs] at h
-  | .arr _ xs, pc, h => by
-      simp only [PyExpr.refs] at h
+  | .arr k xs, pc, h => by
+      simp only [PyExpr.refs, List.mem_append] at h
       simp only [PyExpr.types, List.mem_cons]
-      exact Or.inr (refsL_sub_types cfg xs pc h)
+      rcases h with h | h
+      · left
+        unfold emptyRefs at h
+        split at h
+        · cases k <;> simp at h <;> simp [h, ArrKind.type]
+        · simp at h
+      · exact Or.inr (refsL_sub_types xs pc h)
   | .dict kvs, pc, h => by
       simp only [PyExpr.refs] at h
       simp only [PyExpr.types, List.mem_cons]
-      exact Or.inr (refsKV_sub_types cfg kvs pc h)
+      exact Or.inr (refsKV_sub_types kvs pc h)
   | .floatCall _ _, pc, h => by simp [PyExpr.refs] at h; simp [PyExpr.types, h]
-  | .qnameCall _ _, pc, h => by simp [PyExpr.refs] at h; simp [PyExpr.types, h]
+  | .qnameCall _, pc, h => by simp [PyExpr.refs] at h; simp [PyExpr.types, h]
   | .opaqueCall _ _ _ _, pc, h => by simp [PyExpr.refs] at h; simp [PyExpr.types, h]
   | .enumRef _ _, pc, h => by simp [PyExpr.refs] at h; simp [PyExpr.types, h]
   | .call c kws, pc, h => by
@@ -530,36 +550,36 @@ theorem refs_sub_types (cfg : Cfg) : (e : PyExpr) → ∀ pc ∈ e.refs cfg, pc.
       simp only [PyExpr.types, List.mem_cons]
       rcases h with h | h
       · exact Or.inl (by simp [h])
-      · exact Or.inr (refsKw_sub_types cfg kws pc h)
-theorem refsL_sub_types (cfg : Cfg) : (xs : List PyExpr) → ∀ pc ∈ refsL cfg xs, pc.2 ∈ typesL xs
+      · exact Or.inr (refsKw_sub_types kws pc h)
+theorem refsL_sub_types : (xs : List PyExpr) → ∀ pc ∈ refsL xs, pc.2 ∈ typesL xs
   | [], pc, h => by simp [refsL] at h
   | x :: xs, pc, h => by
       simp only [refsL, List.mem_append] at h
       simp only [typesL, List.mem_append]
       rcases h with h | h
-      · exact Or.inl (refs_sub_types cfg x pc h)
-      · exact Or.inr (refsL_sub_types cfg xs pc h)
-theorem refsKV_sub_types (cfg : Cfg) : (kvs : List (PyExpr × PyExpr)) → ∀ pc ∈ refsKV cfg kvs, pc.2 ∈ typesKV kvs
+      · exact Or.inl (refs_sub_types x pc h)
+      · exact Or.inr (refsL_sub_types xs pc h)
+theorem refsKV_sub_types : (kvs : List (PyExpr × PyExpr)) → ∀ pc ∈ refsKV kvs, pc.2 ∈ typesKV kvs
   | [], pc, h => by simp [refsKV] at h
   | (k, v) :: r, pc, h => by
       simp only [refsKV, List.mem_append] at h
       simp only [typesKV, List.mem_append]
       rcases h with (h | h) | h
-      · exact Or.inl (Or.inl (refs_sub_types cfg k pc h))
-      · exact Or.inl (Or.inr (refs_sub_types cfg v pc h))
-      · exact Or.inr (refsKV_sub_types cfg r pc h)
-theorem refsKw_sub_types (cfg : Cfg) : (kws : List (Str × PyExpr)) → ∀ pc ∈ refsKw cfg kws, pc.2 ∈ typesKw kws
+      · exact Or.inl (Or.inl (refs_sub_types k pc h))
+      · exact Or.inl (Or.inr (refs_sub_types v pc h))
+      · exact Or.inr (refsKV_sub_types r pc h)
+theorem refsKw_sub_types : (kws : List (Str × PyExpr)) → ∀ pc ∈ refsKw kws, pc.2 ∈ typesKw kws
   | [], pc, h => by simp [refsKw] at h
   | (_, e) :: r, pc, h => by
       simp only [refsKw, List.mem_append] at h
       simp only [typesKw, List.mem_append]
       rcases h with h | h
-      · exact Or.inl (refs_sub_types cfg e pc h)
-      · exact Or.inr (refsKw_sub_types cfg r pc h)
+      · exact Or.inl (refs_sub_types e pc h)
+      · exact Or.inr (refsKw_sub_types r pc h)
 end
 
-theorem mem_refsKw_select (cfg : Cfg) (W : World) : ∀ (fs : List FieldSpec) (as : List Val) (pc : List Str × ClsRef),
-    pc ∈ refsKw cfg (selectKw fs as (renderL W as)) → ∃ a ∈ as, pc ∈ ((render W a).refs cfg)
+theorem mem_refsKw_select (W : World) : ∀ (fs : List FieldSpec) (as : List Val) (pc : List Str × ClsRef),
+    pc ∈ refsKw (selectKw fs as (renderL W as)) → ∃ a ∈ as, pc ∈ ((render W a).refs)
   | [], as, pc, h => by cases as <;> simp [selectKw, refsKw] at h
   | f :: fs, [], pc, h => by simp [selectKw, refsKw] at h
   | f :: fs, a :: as, pc, h => by
@@ -568,9 +588,9 @@ theorem mem_refsKw_select (cfg : Cfg) (W : World) : ∀ (fs : List FieldSpec) (a
       · simp only [refsKw, List.mem_append] at h
         rcases h with h | h
         · exact ⟨a, by simp, h⟩
-        · obtain ⟨x, hx, hp⟩ := mem_refsKw_select cfg W fs as pc h
+        · obtain ⟨x, hx, hp⟩ := mem_refsKw_select W fs as pc h
           exact ⟨x, by simp [hx], hp⟩
-      · obtain ⟨x, hx, hp⟩ := mem_refsKw_select cfg W fs as pc h
+      · obtain ⟨x, hx, hp⟩ := mem_refsKw_select W fs as pc h
         exact ⟨x, by simp [hx], hp⟩
 
 theorem reachable_single (W : World) (m h : Str) : reachable W ⟨m, [h]⟩ = true := by
@@ -584,19 +604,19 @@ theorem wfL_mem {W : World} : ∀ {xs : List Val} {a : Val}, wfL W xs = true →
       | head => exact hw'.1
       | tail _ h' => exact wfL_mem hw'.2 h'
 
-theorem valOKL_mem {cfg : Cfg} {W : World} : ∀ {xs : List Val} {a : Val}, valOKL cfg W xs = true → a ∈ xs → valOK cfg W a = true
+theorem valOKL_mem {W : World} : ∀ {xs : List Val} {a : Val}, valOKL W xs = true → a ∈ xs → valOK W a = true
   | [], _, _, h => by cases h
   | x :: xs, a, hw, h => by
-      have hw' : valOK cfg W x = true ∧ valOKL cfg W xs = true := by simpa [valOKL] using hw
+      have hw' : valOK W x = true ∧ valOKL W xs = true := by simpa [valOKL] using hw
       cases h with
       | head => exact hw'.1
       | tail _ h' => exact valOKL_mem hw'.2 h'
 
-def RefsGood (cfg : Cfg) (W : World) (v : Val) : Prop :=
-  wf W v = true → valOK cfg W v = true → ∀ pc ∈ ((render W v).refs cfg), RefGood W pc
+def RefsGood (W : World) (v : Val) : Prop :=
+  wf W v = true → valOK W v = true → ∀ pc ∈ ((render W v).refs), RefGood W pc
 
 mutual
-theorem refs_good (cfg : Cfg) (W : World) : (v : Val) → RefsGood cfg W v
+theorem refs_good (W : World) : (v : Val) → RefsGood W v
   | .none => fun _ _ pc h => by simp [render, PyExpr.refs] at h
   | .bool _ => fun _ _ pc h => by simp [render, PyExpr.refs] at h
   | .int _ => fun _ _ pc h => by simp [render, PyExpr.refs] at h
@@ -606,9 +626,9 @@ theorem refs_good (cfg : Cfg) (W : World) : (v : Val) → RefsGood cfg W v
       cases hf : n.isFin
       · simp [render, hf, PyExpr.refs] at h
         subst h
-        exact ⟨by simp [floatCallee_eq]; rfl, reachable_single W _ _, Or.inr rfl⟩
+        exact ⟨by simp [floatCallee_eq]; rfl, reachable_single W _ _, Or.inr ⟨cs!"float", rfl, float_builtin⟩⟩
       · simp [render, hf, PyExpr.refs] at h
-  | .qname t r => fun _ _ pc h => by
+  | .qname t => fun _ _ pc h => by
       simp [render, PyExpr.refs] at h
       subst h
       exact ⟨by simp [qnameCallee_eq]; rfl, reachable_single W _ _, Or.inl (by simpa using qname_not_builtin)⟩
@@ -621,28 +641,28 @@ theorem refs_good (cfg : Cfg) (W : World) : (v : Val) → RefsGood cfg W v
   | .enum c m => fun hwf hok pc h => by
       simp [render, PyExpr.refs] at h
       subst h
-      have hp : cfg.enumFix = true ∨ c.path.length = 1 := by simpa [valOK] using hok
       have hw : (isEnumWith W c m = true ∧ reachable W c = true) ∧ c.module ≠ builtinsMod := by
         simpa [wf] using hwf
-      refine ⟨?_, hw.1.2, Or.inl hw.2⟩
-      rcases hp with hp | hp
-      · simp [enumNames, hp]
-      · cases hc : c.path with
-        | nil => simp [hc] at hp
-        | cons a r =>
-          cases r with
-          | nil => simp [enumNames, lastName, hc]
-          | cons _ _ => simp [hc] at hp
+      exact ⟨rfl, hw.1.2, Or.inl hw.2⟩
   | .list xs => fun hwf hok pc h => by
-      simp only [render, PyExpr.refs] at h
-      exact refs_goodL cfg W xs (by simpa [wf] using hwf) (by simpa [valOK] using hok) pc h
+      simp only [render, PyExpr.refs, emptyRefs] at h
+      exact refs_goodL W xs (by simpa [wf] using hwf) (by simpa [valOK] using hok) pc (by simpa using h)
   | .tuple xs => fun hwf hok pc h => by
-      have hok' : (cfg.tupleFix = true ∨ xs = []) ∧ valOKL cfg W xs = true := by simpa [valOK] using hok
-      simp only [render, PyExpr.refs] at h
-      exact refs_goodL cfg W xs (by simpa [wf] using hwf) hok'.2 pc h
+      simp only [render, PyExpr.refs, emptyRefs] at h
+      exact refs_goodL W xs (by simpa [wf] using hwf) (by simpa [valOK] using hok) pc (by simpa using h)
+  | .set frozen xs => fun _ hok pc h => by
+      have hx : xs = [] := by simpa [valOK] using hok
+      subst hx
+      cases frozen
+      · simp [render, renderL, PyExpr.refs, emptyRefs, refsL] at h
+        subst h
+        exact ⟨rfl, reachable_single W _ _, Or.inr ⟨cs!"set", rfl, set_builtin.1⟩⟩
+      · simp [render, renderL, PyExpr.refs, emptyRefs, refsL] at h
+        subst h
+        exact ⟨rfl, reachable_single W _ _, Or.inr ⟨cs!"frozenset", rfl, set_builtin.2⟩⟩
   | .dict kvs => fun hwf hok pc h => by
       simp only [render, PyExpr.refs] at h
-      exact refs_goodKV cfg W kvs (by simpa [wf] using hwf) (by simpa [valOK] using hok) pc h
+      exact refs_goodKV W kvs (by simpa [wf] using hwf) (by simpa [valOK] using hok) pc h
   | .model c attrs => fun hwf hok pc h => by
       simp only [wf, Bool.and_eq_true] at hwf
       obtain ⟨⟨⟨_, hreach⟩, hmod⟩, hwfL⟩ := hwf
@@ -651,55 +671,55 @@ theorem refs_good (cfg : Cfg) (W : World) : (v : Val) → RefsGood cfg W v
       rcases h with h | h
       · subst h
         exact ⟨rfl, hreach, Or.inl (by simpa using hmod)⟩
-      · obtain ⟨a, ha, hp⟩ := mem_refsKw_select cfg W _ attrs pc h
-        exact refs_goodA cfg W attrs a ha (wfL_mem hwfL ha) (valOKL_mem hok.2 ha) pc hp
-theorem refs_goodA (cfg : Cfg) (W : World) : (xs : List Val) → ∀ a ∈ xs, RefsGood cfg W a
+      · obtain ⟨a, ha, hp⟩ := mem_refsKw_select W _ attrs pc h
+        exact refs_goodA W attrs a ha (wfL_mem hwfL ha) (valOKL_mem hok.2 ha) pc hp
+theorem refs_goodA (W : World) : (xs : List Val) → ∀ a ∈ xs, RefsGood W a
   | [], _, h => by cases h
   | x :: xs, a, h => by
       cases h with
-      | head => exact refs_good cfg W x
-      | tail _ h' => exact refs_goodA cfg W xs a h'
-theorem refs_goodL (cfg : Cfg) (W : World) : (xs : List Val) → wfL W xs = true → valOKL cfg W xs = true →
-    ∀ pc ∈ refsL cfg (renderL W xs), RefGood W pc
+      | head => exact refs_good W x
+      | tail _ h' => exact refs_goodA W xs a h'
+theorem refs_goodL (W : World) : (xs : List Val) → wfL W xs = true → valOKL W xs = true →
+    ∀ pc ∈ refsL (renderL W xs), RefGood W pc
   | [], _, _, pc, h => by simp [renderL, refsL] at h
   | x :: xs, hwf, hok, pc, h => by
       have hwf' : wf W x = true ∧ wfL W xs = true := by simpa [wfL] using hwf
-      have hok' : valOK cfg W x = true ∧ valOKL cfg W xs = true := by simpa [valOKL] using hok
+      have hok' : valOK W x = true ∧ valOKL W xs = true := by simpa [valOKL] using hok
       simp only [renderL, refsL, List.mem_append] at h
       rcases h with h | h
-      · exact refs_good cfg W x hwf'.1 hok'.1 pc h
-      · exact refs_goodL cfg W xs hwf'.2 hok'.2 pc h
-theorem refs_goodKV (cfg : Cfg) (W : World) : (kvs : List (Val × Val)) → wfKV W kvs = true → valOKKV cfg W kvs = true →
-    ∀ pc ∈ refsKV cfg (renderKV W kvs), RefGood W pc
+      · exact refs_good W x hwf'.1 hok'.1 pc h
+      · exact refs_goodL W xs hwf'.2 hok'.2 pc h
+theorem refs_goodKV (W : World) : (kvs : List (Val × Val)) → wfKV W kvs = true → valOKKV W kvs = true →
+    ∀ pc ∈ refsKV (renderKV W kvs), RefGood W pc
   | [], _, _, pc, h => by simp [renderKV, refsKV] at h
   | (k, v) :: r, hwf, hok, pc, h => by
       have hwf' : (wf W k = true ∧ wf W v = true) ∧ wfKV W r = true := by simpa [wfKV] using hwf
-      have hok' : ((hashable k = true ∧ valOK cfg W k = true) ∧ valOK cfg W v = true) ∧ valOKKV cfg W r = true := by
+      have hok' : ((hashable k = true ∧ valOK W k = true) ∧ valOK W v = true) ∧ valOKKV W r = true := by
         simpa [valOKKV] using hok
       simp only [renderKV, refsKV, List.mem_append] at h
       rcases h with (h | h) | h
-      · exact refs_good cfg W k hwf'.1.1 hok'.1.1.2 pc h
-      · exact refs_good cfg W v hwf'.1.2 hok'.1.2 pc h
-      · exact refs_goodKV cfg W r hwf'.2 hok'.2 pc h
+      · exact refs_good W k hwf'.1.1 hok'.1.1.2 pc h
+      · exact refs_good W v hwf'.1.2 hok'.1.2 pc h
+      · exact refs_goodKV W r hwf'.2 hok'.2 pc h
 end
 
 
 /-! ### no string literal of the source needs decoding the model does not cover -/
 
-theorem riskKw_select (cfg : Cfg) (W : World) : ∀ (fs : List FieldSpec) (as : List Val),
-    (∀ a ∈ as, (render W a).syntaxRisk cfg = false) → riskKw cfg (selectKw fs as (renderL W as)) = false
+theorem riskKw_select (W : World) : ∀ (fs : List FieldSpec) (as : List Val),
+    (∀ a ∈ as, (render W a).syntaxRisk = false) → riskKw (selectKw fs as (renderL W as)) = false
   | [], as, _ => by cases as <;> simp [selectKw, riskKw]
   | f :: fs, [], _ => by simp [selectKw, riskKw]
   | f :: fs, a :: as, h => by
       have ha := h a (by simp)
-      have hr := riskKw_select cfg W fs as (fun x hx => h x (by simp [hx]))
+      have hr := riskKw_select W fs as (fun x hx => h x (by simp [hx]))
       simp only [selectKw, renderL]
       split <;> simp [riskKw, ha, hr]
 
-def NoRisk (cfg : Cfg) (W : World) (v : Val) : Prop := valOK cfg W v = true → (render W v).syntaxRisk cfg = false
+def NoRisk (W : World) (v : Val) : Prop := valOK W v = true → (render W v).syntaxRisk = false
 
 mutual
-theorem no_risk (cfg : Cfg) (W : World) : (v : Val) → NoRisk cfg W v
+theorem no_risk (W : World) : (v : Val) → NoRisk W v
   | .none => fun _ => by simp [render, PyExpr.syntaxRisk]
   | .bool _ => fun _ => by simp [render, PyExpr.syntaxRisk]
   | .int _ => fun _ => by simp [render, PyExpr.syntaxRisk]
@@ -708,117 +728,88 @@ theorem no_risk (cfg : Cfg) (W : World) : (v : Val) → NoRisk cfg W v
   | .float n _ => fun _ => by cases hf : n.isFin <;> simp [render, hf, PyExpr.syntaxRisk]
   | .opaque _ _ _ _ => fun _ => by simp [render, PyExpr.syntaxRisk]
   | .enum _ _ => fun _ => by simp [render, PyExpr.syntaxRisk]
-  | .qname t r => fun hok => by
-      cases hq : cfg.qnameFix
-      · have hp : plainDq t = true := by simpa [valOK, hq] using hok
-        simp [render, PyExpr.syntaxRisk, decodeDq_plain t hp]
-      · simp [render, PyExpr.syntaxRisk, hq]
+  | .qname t => fun _ => by
+      simp [render, PyExpr.syntaxRisk, decodeDq_jsonBody t]
   | .list xs => fun hok => by
       simp only [render, PyExpr.syntaxRisk]
-      exact no_riskL cfg W xs (by simpa [valOK] using hok)
+      exact no_riskL W xs (by simpa [valOK] using hok)
   | .tuple xs => fun hok => by
-      have hok' : (cfg.tupleFix = true ∨ xs = []) ∧ valOKL cfg W xs = true := by simpa [valOK] using hok
       simp only [render, PyExpr.syntaxRisk]
-      exact no_riskL cfg W xs hok'.2
+      exact no_riskL W xs (by simpa [valOK] using hok)
+  | .set frozen xs => fun hok => by
+      have hx : xs = [] := by simpa [valOK] using hok
+      subst hx
+      simp [render, renderL, PyExpr.syntaxRisk, riskL]
   | .dict kvs => fun hok => by
       simp only [render, PyExpr.syntaxRisk]
-      exact no_riskKV cfg W kvs (by simpa [valOK] using hok)
+      exact no_riskKV W kvs (by simpa [valOK] using hok)
   | .model c attrs => fun hok => by
       simp only [valOK, Bool.and_eq_true] at hok
       simp only [render, PyExpr.syntaxRisk]
-      exact riskKw_select cfg W _ attrs (fun a ha => no_riskA cfg W attrs a ha (valOKL_mem hok.2 ha))
-theorem no_riskA (cfg : Cfg) (W : World) : (xs : List Val) → ∀ a ∈ xs, NoRisk cfg W a
+      exact riskKw_select W _ attrs (fun a ha => no_riskA W attrs a ha (valOKL_mem hok.2 ha))
+theorem no_riskA (W : World) : (xs : List Val) → ∀ a ∈ xs, NoRisk W a
   | [], _, h => by cases h
   | x :: xs, a, h => by
       cases h with
-      | head => exact no_risk cfg W x
-      | tail _ h' => exact no_riskA cfg W xs a h'
-theorem no_riskL (cfg : Cfg) (W : World) : (xs : List Val) → valOKL cfg W xs = true → riskL cfg (renderL W xs) = false
+      | head => exact no_risk W x
+      | tail _ h' => exact no_riskA W xs a h'
+theorem no_riskL (W : World) : (xs : List Val) → valOKL W xs = true → riskL (renderL W xs) = false
   | [], _ => by simp [renderL, riskL]
   | x :: xs, hok => by
-      have hok' : valOK cfg W x = true ∧ valOKL cfg W xs = true := by simpa [valOKL] using hok
-      simp [renderL, riskL, no_risk cfg W x hok'.1, no_riskL cfg W xs hok'.2]
-theorem no_riskKV (cfg : Cfg) (W : World) : (kvs : List (Val × Val)) → valOKKV cfg W kvs = true → riskKV cfg (renderKV W kvs) = false
+      have hok' : valOK W x = true ∧ valOKL W xs = true := by simpa [valOKL] using hok
+      simp [renderL, riskL, no_risk W x hok'.1, no_riskL W xs hok'.2]
+theorem no_riskKV (W : World) : (kvs : List (Val × Val)) → valOKKV W kvs = true → riskKV (renderKV W kvs) = false
   | [], _ => by simp [renderKV, riskKV]
   | (k, v) :: r, hok => by
-      have hok' : ((hashable k = true ∧ valOK cfg W k = true) ∧ valOK cfg W v = true) ∧ valOKKV cfg W r = true := by
+      have hok' : ((hashable k = true ∧ valOK W k = true) ∧ valOK W v = true) ∧ valOKKV W r = true := by
         simpa [valOKKV] using hok
-      simp [renderKV, riskKV, no_risk cfg W k hok'.1.1.2, no_risk cfg W v hok'.1.2, no_riskKV cfg W r hok'.2]
+      simp [renderKV, riskKV, no_risk W k hok'.1.1.2, no_risk W v hok'.1.2, no_riskKV W r hok'.2]
 end
 
 
-/-! ### `valOK` = the property's domain minus the three value-level defects -/
+/-! ### `valOK` = the property's domain minus non-empty sets -/
 
 mutual
-theorem valOK_of_dom_clean (cfg : Cfg) (W : World) : (v : Val) → domOK W v = true → clean cfg v = true → valOK cfg W v = true
+theorem valOK_of_dom_setFree (W : World) : (v : Val) → domOK W v = true → setFree v = true → valOK W v = true
   | .none, _, _ => by simp [valOK]
   | .bool _, _, _ => by simp [valOK]
   | .int _, _, _ => by simp [valOK]
   | .str _ _, _, _ => by simp [valOK]
   | .bytes _ _, _, _ => by simp [valOK]
+  | .qname _, _, _ => by simp [valOK]
+  | .enum _ _, _, _ => by simp [valOK]
   | .float _ _, hd, _ => by simpa [valOK, domOK] using hd
   | .opaque _ _ _ _, hd, _ => by simpa [valOK, domOK] using hd
-  | .enum _ _, _, hc => by simpa [valOK, clean] using hc
-  | .qname _ _, _, hc => by simpa [valOK, clean] using hc
+  | .set _ _, _, hc => by simpa [valOK, setFree] using hc
   | .tuple xs, hd, hc => by
-      have hc' : (cfg.tupleFix = true ∨ xs = []) ∧ cleanL cfg xs = true := by simpa [clean] using hc
-      have := valOKL_of_dom_clean cfg W xs (by simpa [domOK] using hd) hc'.2
-      simp only [valOK, Bool.and_eq_true, Bool.or_eq_true, List.isEmpty_iff]
-      exact ⟨hc'.1, this⟩
+      simp only [valOK]
+      exact valOKL_of_dom_setFree W xs (by simpa [domOK] using hd) (by simpa [setFree] using hc)
   | .list xs, hd, hc => by
       simp only [valOK]
-      exact valOKL_of_dom_clean cfg W xs (by simpa [domOK] using hd) (by simpa [clean] using hc)
+      exact valOKL_of_dom_setFree W xs (by simpa [domOK] using hd) (by simpa [setFree] using hc)
   | .dict kvs, hd, hc => by
       simp only [valOK]
-      exact valOKKV_of_dom_clean cfg W kvs (by simpa [domOK] using hd) (by simpa [clean] using hc)
+      exact valOKKV_of_dom_setFree W kvs (by simpa [domOK] using hd) (by simpa [setFree] using hc)
   | .model c attrs, hd, hc => by
       simp only [domOK, Bool.and_eq_true] at hd
       simp only [valOK, Bool.and_eq_true]
-      exact ⟨hd.1, valOKL_of_dom_clean cfg W attrs hd.2 (by simpa [clean] using hc)⟩
-theorem valOKL_of_dom_clean (cfg : Cfg) (W : World) : (xs : List Val) → domOKL W xs = true → cleanL cfg xs = true → valOKL cfg W xs = true
+      exact ⟨hd.1, valOKL_of_dom_setFree W attrs hd.2 (by simpa [setFree] using hc)⟩
+theorem valOKL_of_dom_setFree (W : World) : (xs : List Val) → domOKL W xs = true → setFreeL xs = true →
+    valOKL W xs = true
   | [], _, _ => by simp [valOKL]
   | x :: xs, hd, hc => by
       have hd' : domOK W x = true ∧ domOKL W xs = true := by simpa [domOKL] using hd
-      have hc' : clean cfg x = true ∧ cleanL cfg xs = true := by simpa [cleanL] using hc
-      simp [valOKL, valOK_of_dom_clean cfg W x hd'.1 hc'.1, valOKL_of_dom_clean cfg W xs hd'.2 hc'.2]
-theorem valOKKV_of_dom_clean (cfg : Cfg) (W : World) : (kvs : List (Val × Val)) → domOKKV W kvs = true → cleanKV cfg kvs = true →
-    valOKKV cfg W kvs = true
+      have hc' : setFree x = true ∧ setFreeL xs = true := by simpa [setFreeL] using hc
+      simp [valOKL, valOK_of_dom_setFree W x hd'.1 hc'.1, valOKL_of_dom_setFree W xs hd'.2 hc'.2]
+theorem valOKKV_of_dom_setFree (W : World) : (kvs : List (Val × Val)) → domOKKV W kvs = true →
+    setFreeKV kvs = true → valOKKV W kvs = true
   | [], _, _ => by simp [valOKKV]
   | (k, v) :: r, hd, hc => by
       have hd' : ((hashable k = true ∧ domOK W k = true) ∧ domOK W v = true) ∧ domOKKV W r = true := by
         simpa [domOKKV] using hd
-      have hc' : (clean cfg k = true ∧ clean cfg v = true) ∧ cleanKV cfg r = true := by simpa [cleanKV] using hc
-      simp [valOKKV, hd'.1.1.1, valOK_of_dom_clean cfg W k hd'.1.1.2 hc'.1.1, valOK_of_dom_clean cfg W v hd'.1.2 hc'.1.2,
-        valOKKV_of_dom_clean cfg W r hd'.2 hc'.2]
-end
-
-
-/-! ### with the three repairs nothing value-level is excluded -/
-
-mutual
-theorem clean_patched : (v : Val) → clean Cfg.patched v = true
-  | .none => by simp [clean]
-  | .bool _ => by simp [clean]
-  | .int _ => by simp [clean]
-  | .float _ _ => by simp [clean]
-  | .str _ _ => by simp [clean]
-  | .bytes _ _ => by simp [clean]
-  | .qname _ _ => by simp [clean, Cfg.patched]
-  | .opaque _ _ _ _ => by simp [clean]
-  | .enum _ _ => by simp [clean, Cfg.patched]
-  | .list xs => by simp only [clean]; exact cleanL_patched xs
-  | .tuple xs => by
-      have := cleanL_patched xs
-      simp only [clean, Bool.and_eq_true, Bool.or_eq_true]
-      exact ⟨Or.inl rfl, this⟩
-  | .dict kvs => by simp only [clean]; exact cleanKV_patched kvs
-  | .model _ attrs => by simp only [clean]; exact cleanL_patched attrs
-theorem cleanL_patched : (xs : List Val) → cleanL Cfg.patched xs = true
-  | [] => by simp [cleanL]
-  | x :: xs => by simp [cleanL, clean_patched x, cleanL_patched xs]
-theorem cleanKV_patched : (kvs : List (Val × Val)) → cleanKV Cfg.patched kvs = true
-  | [] => by simp [cleanKV]
-  | (k, v) :: r => by simp [cleanKV, clean_patched k, clean_patched v, cleanKV_patched r]
+      have hc' : (setFree k = true ∧ setFree v = true) ∧ setFreeKV r = true := by simpa [setFreeKV] using hc
+      simp [valOKKV, hd'.1.1.1, valOK_of_dom_setFree W k hd'.1.1.2 hc'.1.1,
+        valOK_of_dom_setFree W v hd'.1.2 hc'.1.2, valOKKV_of_dom_setFree W r hd'.2 hc'.2]
 end
 
 end Xs.Code
